@@ -17,7 +17,7 @@ RULE = (
     "(shape, observed pattern, k, batch set); non-trivial = the batch is non-empty or some sample has fewer than k plates"
 )
 ASSUMPTIONS = ["states are memoised on the set of batch plates (quick: <=9 plates; thorough: always) or on per-sample batch counts (larger shapes)"]
-REQUIRED = {"batches_given_as_tuple_set_frozenset_or_dict_keys": {"quick": 100, "thorough": 1500}, "multi_sample_refusals_after_earlier_calls": {"quick": 40, "thorough": 300}, "walk_steps_with_mostly_posinf_scores": {"quick": 80, "thorough": 1200}, "screens_with_interleaved_plate_ids": {"quick": 60, "thorough": 400}, "holders_not_in_plate_id_order": {"quick": 1000, "thorough": 8000}, "states_checked": {"quick": 3000, "thorough": 20000}, "walk_steps": {"quick": 300, "thorough": 5000}, "multi_sample_refusals": {"quick": 40, "thorough": 250}, "multi_sample_layout_1": {"quick": 6, "thorough": 40}, "batches_revealed_in_place": {"quick": 60, "thorough": 800}}
+REQUIRED = {"selections_from_a_partial_set_of_scores": {"quick": 60, "thorough": 800}, "batches_given_as_tuple_set_frozenset_or_dict_keys": {"quick": 100, "thorough": 1500}, "multi_sample_refusals_after_earlier_calls": {"quick": 40, "thorough": 300}, "walk_steps_with_mostly_posinf_scores": {"quick": 80, "thorough": 1200}, "screens_with_interleaved_plate_ids": {"quick": 60, "thorough": 400}, "holders_not_in_plate_id_order": {"quick": 1000, "thorough": 8000}, "states_checked": {"quick": 3000, "thorough": 20000}, "walk_steps": {"quick": 300, "thorough": 5000}, "multi_sample_refusals": {"quick": 40, "thorough": 250}, "multi_sample_layout_1": {"quick": 6, "thorough": 40}, "batches_revealed_in_place": {"quick": 60, "thorough": 800}}
 
 
 def build_screen(Screen, shape, observed_plates=(), multi=None, multi_where=2, perm=None):
@@ -106,7 +106,7 @@ def run_shard(rec, tier, seed, shard, nshards):
             h.add_score(int(p), (0.0 if p == best else 1.0) if scores is None else float(scores[p]))
         return h
 
-    def step(screen, policy, unobserved, batch, best=None, scores=None, as_array=False):
+    def step(screen, policy, unobserved, batch, best=None, scores=None, as_array=False, scored=None):
         """returns (allowed ids as recorded at the policy, selected id or None)"""
         recd = {}
         orig = policy.filter_eligible_plates
@@ -128,7 +128,7 @@ def run_shard(rec, tier, seed, shard, nshards):
                 how_ = int(order_rng.integers(4))
                 bids = [tuple(bids), set(bids), frozenset(bids), dict.fromkeys(bids).keys()][how_]
                 rec.count("batches_given_as_tuple_set_frozenset_or_dict_keys")
-            sel = select_next_plate(holder_for(unobserved, best, scores), screen, policy, batch_plate_ids=bids, rng=np.random.default_rng(0))
+            sel = select_next_plate(holder_for(unobserved if scored is None else scored, best, scores), screen, policy, batch_plate_ids=bids, rng=np.random.default_rng(0))
         finally:
             del policy.filter_eligible_plates
         return recd, (None if sel is None else int(sel.plate_id))
@@ -244,9 +244,25 @@ def run_shard(rec, tier, seed, shard, nshards):
             w = {"shape": list(shape), "k": k, "observed": list(observed), "batch": list(batch), "history": trace[-12:]}
             try:
                 arr = bool(rng.random() < 0.5)
-                recd, sel = step(screen, policy, unobserved, batch, scores=scores, as_array=arr)
+                scored = None
+                if len(unobserved) >= 3 and rng.random() < 0.3:
+                    # only some of the score files are in yet (one chunk of several): the selection is made among the
+                    # plates that have a score
+                    scored = sorted(int(x) for x in rng.choice(unobserved, size=int(rng.integers(1, len(unobserved))), replace=False))
+                    rec.count("selections_from_a_partial_set_of_scores")
+                try:
+                    recd, sel = step(screen, policy, unobserved, batch, scores=scores, as_array=arr, scored=scored)
+                except ValueError:
+                    if scored is None:
+                        raise
+                    # none of the plates the policy allows has a score yet: the selection refuses (nothing to choose from)
+                    rec.count("partial_score_sets_without_an_allowed_plate")
+                    continue
                 if arr and len(batch) <= 1:
                     rec.count("batches_passed_as_numpy_array")
+                if sel is not None and "allowed" in recd:
+                    rec.count("oracle_evals")
+                    rec.check(sel in recd["allowed"] and (scored is None or sel in scored), "C16/selection/not-among-the-allowed", lambda: "plate %r was selected; the policy allows %r%s" % (sel, recd["allowed"], "" if scored is None else ", scores exist for %r" % (scored,)), w)
             except Exception as e:
                 rec.violation("C16/policy/raises", "select_next_plate raised %r" % (e,), w)
                 break
